@@ -46,16 +46,29 @@ COMPLETE = {'MatchingDecoder', 'UnionFindDecoder', 'BeliefPropagationOSDDecoder'
 RANDOMISED = {'SweepDecoder3D', 'RotatedSweepDecoder3D', 'SweepMatchDecoder', 'RotatedSweepMatchDecoder'}
 
 
-def build(dname, code, direction=(1 / 3, 1 / 3, 1 / 3), p=0.1, noise_deformation=None, **kw):
+def build(dname, code, direction=(1 / 3, 1 / 3, 1 / 3), p=0.1, noise_deformation=None, noise_kwargs=None, **kw):
     import panqec.decoders as Dm
     from panqec.error_models import PauliErrorModel
-    em = PauliErrorModel(*direction, deformation_name=noise_deformation)
+    em = PauliErrorModel(*direction, deformation_name=noise_deformation, deformation_kwargs=noise_kwargs)
     if dname == 'MemoryBeliefPropagationDecoder':
         kw.setdefault('max_bp_iter', 10)
     if dname == 'BeliefPropagationOSDDecoder':
         kw.setdefault('max_bp_iter', 20); kw.setdefault('osd_order', 0)
     with contextlib.redirect_stdout(io.StringIO()):
         return getattr(Dm, dname)(code, em, p, **kw), em
+
+
+def sector_syndromes(code, rnd, k):
+    """syndromes of X-only and of Z-only errors (one CSS sector of the syndrome is then identically zero)"""
+    out = []
+    n = code.n
+    for i in range(k):
+        for half in (0, 1):
+            e = np.zeros(2 * n, dtype=np.uint8)
+            for q in rnd.sample(range(n), min(n, rnd.randint(1, 3))):
+                e[half * n + q] = 1
+            out.append(np.asarray(code.measure_syndrome(e)).astype(np.uint8) % 2)
+    return out
 
 
 def quiet_decode(dec, syn):
